@@ -12,7 +12,7 @@ pub fn property() -> Property {
     Property {
         id: "C17",
         level: "exploration",
-        rule: "family `rewrite` (pure, hook H6): requests generated from an RFC 7230 grammar restricted to what senders generate (lower-case scheme, no userinfo, single SP, CRLF, US-ASCII/UTF-8): methods (tokens, CONNECT in any case), targets (authority-form host:port / [v6]:port / bare host; absolute-form http:// and https:// with and without port, path, query, empty path, query without path; origin-form + Host; `*`), HTTP/1.0 and 1.1, 0-40 header lines with duplicates and odd spacing, Host spelled in any letter case and at any position, header blocks up to ~64 KiB, body prefix 0-4 KiB. Oracles: target = authority per the reference (defaults 80/443, brackets stripped); forwarded bytes parse to the same method, origin-form target, version, the same header lines in order with only Host re-spelled to a value denoting the same host (and port if given; a Host line may be added only when there was none); body bytes kept exactly once. Non-trivial = non-CONNECT with >= 1 header besides Host, or a body prefix, or an IPv6/ported host, or a header block > 60 KiB. Distinct = distinct serialized case. One proxy case in three sends a burst of 8192, 9000, 20000, 70000 or 300000 more bytes in one write behind the header block (forwarded requests) or behind the 200 (CONNECT): the origin must receive all of them exactly once and in order.",
+        rule: "family `rewrite` (pure, hook H6): requests generated from an RFC 7230 grammar restricted to what senders generate (lower-case scheme, no userinfo, single SP, CRLF, US-ASCII/UTF-8): methods (tokens, CONNECT in any case), targets (authority-form host:port / [v6]:port / bare host; absolute-form http:// and https:// with and without port, path, query, empty path, query without path; origin-form + Host; `*`), HTTP/1.0 and 1.1, 0-40 header lines with duplicates and odd spacing, Host spelled in any letter case and at any position, header blocks up to ~64 KiB, body prefix 0-4 KiB. Oracles: target = authority per the reference (defaults 80/443, brackets stripped); forwarded bytes parse to the same method, origin-form target, version, the same header lines in order with only Host re-spelled to a value denoting the same host (and port if given; a Host line may be added only when there was none); body bytes kept exactly once. Non-trivial = non-CONNECT with >= 1 header besides Host, or a body prefix, or an IPv6/ported host, or a header block > 60 KiB. Distinct = distinct serialized case. One proxy case in three sends a burst of 8192, 9000, 20000, 70000 or 300000 more bytes in one write behind the header block (forwarded requests) or behind the 200 (CONNECT): the origin must receive all of them exactly once and in order. In every second burst case of a forwarded request the burst is written together with the header block, in one write: more body bytes are readable the moment the relay behind the header starts.",
         assumptions: vec![
             "reference request builder/parser in harness/src/reference/http.rs (RFC 7230 §5.3/§5.4)",
             "H6 verif_parse_and_rewrite calls the private parse_http_request + build_forward_request unchanged",
